@@ -40,6 +40,7 @@ from .lib import CoqFailure, coq_Z, coq_list, coq_nat
 
 RTOL = 1e-9
 FDTOL = 1e-6
+FORCED = ["hcp-oct-tet", "pmm2-3w", "wurtzite-int", "polar2w", "sq2w", "fcc-oct-tet"]
 
 
 # ------------------------------------------------------------------------------------------ population (b)
@@ -103,8 +104,16 @@ def check_population(d, crys, chem, sl, jn, dip, dipT):
 
 
 # ------------------------------------------------------------------------------------------ float envelope
+def wyck(d):
+    """site -> Wyckoff-set index, from the sitelist itself (NOT the calculator's invmap)"""
+    inv = [None] * d.N
+    for w, sites in enumerate(d.sitelist):
+        for i in sites: inv[i] = w
+    return inv
+
+
 def site_weights(d, inp):
-    inv = d.invmap
+    inv = wyck(d)
     return np.array([inp["pre"][inv[i]] * math.exp(-inp["bE"][inv[i]]) for i in range(d.N)])
 
 
@@ -141,7 +150,7 @@ def strained_D(crys, chem, cut, eps, d, jn, inp, Ps, Pj):
     sl2 = cs.sitelist(chem); jn2 = cs.jumpnetwork(chem, cut)
     if sum(len(t) for t in jn2) != sum(len(t) for t in jn): raise RuntimeError("strained jump network has a different number of jumps")
     d2 = OnsagerCalc.Interstitial(cs, chem, sl2, jn2)
-    inv = d.invmap
+    inv = wyck(d)
     pre2 = [inp["pre"][inv[s[0]]] for s in sl2]
     bE2 = []
     for s in sl2:
@@ -262,7 +271,7 @@ def run_cases(ck, name, terms, chunk=20):
 def exact_terms(crys, d, jn, inp_exact, Ps, Pj, D, Db, Dp):
     """Coq cases (beta + every strain component) for one data set; returns list of (what, term) and #skipped"""
     dim, N = crys.dim, d.N
-    inv = d.invmap
+    inv = wyck(d)
     und = pair_jumps(jn)   # raises if not reversible
     il = crys.invlatt
     geo = []
@@ -352,7 +361,14 @@ def run(ck):
     worst = {"float": 0.0, "fd_beta": 0.0, "fd_strain": 0.0}
     # named lattices, with the polar / low-symmetry ones (non-empty vector basis: the correlated path) over-represented
     names = gen.NAMES2 + gen.NAMES3 + ["polar", "polar2w", "rect-polar2d", "oblique2d", "hcp-oct-tet", "bcc-tet", "polar", "rect-polar2d"]
-    for label, crys, chem in gen.pool(rng, ncases, names=names, random_frac=0.45, maxatoms=3):
+    def source():
+        # always present: several Wyckoff sets with different site data, atoms listed in a random (interleaving) order
+        fl = list(FORCED); rng.shuffle(fl)
+        for nm in fl[:ck.n(4, 6)]:
+            crys, chem = gen.named(nm)
+            yield nm + "~perm", gen.shuffled(crys, rng), chem
+        yield from gen.pool(rng, ncases, names=names, random_frac=0.45, maxatoms=3)
+    for label, crys, chem in source():
         try:
             net = gen.percolating_network(crys, chem, rng, maxjumps=40)
         except Exception:
@@ -362,7 +378,8 @@ def run(ck):
         cut, sl, jn = net
         d = OnsagerCalc.Interstitial(crys, chem, sl, jn)
         dim = crys.dim
-        kind = "%dD-N%d-W%d-NV%d-%s" % (dim, d.N, len(sl), d.NV, label.split("-")[0])
+        interleaved = any(list(w) != list(range(min(w), min(w) + len(w))) for w in sl) or [w[0] for w in sl] != sorted(w[0] for w in sl)
+        kind = "%dD-N%d-W%d-NV%d-%s%s" % (dim, d.N, len(sl), d.NV, label.split("-")[0], "-interleaved" if interleaved else "")
         nr = ck.nprng(rng.randrange(1 << 30))
         inp, ex = random_input(rng, nr, sl, jn, dim)
         rep = {"crystal": repr(crys), "chem": chem, "cutoff": cut, **inp}
@@ -381,7 +398,7 @@ def run(ck):
             ck.violation("elastodiffusion returns a diffusivity differing from diffusivity() by %.3g" % np.abs(D0 - D).max(), rep, key="c11-elasto-D")
         # ---- float envelope + FD, beta
         amax = max(max(inp["bET"]), 1.0)
-        Denv, dDenv = envelope_float(d, jn, inp, [-inp["bE"][d.invmap[i]] for i in range(d.N)], [[-inp["bET"][c]] * len(jl) for c, jl in enumerate(jn)])
+        Denv, dDenv = envelope_float(d, jn, inp, [-inp["bE"][wyck(d)[i]] for i in range(d.N)], [[-inp["bET"][c]] * len(jl) for c, jl in enumerate(jn)])
         e1 = max(np.abs(D - Denv).max() / scaleD, np.abs(-Db - dDenv).max() / (scaleD * amax))
         dfd = fd_beta(d, inp)
         e2 = np.abs(-Db - dfd).max() / (scaleD * amax)
